@@ -19,7 +19,7 @@ func (c18) Size(tier string) Size {
 	if tier == "thorough" {
 		return Size{Batches: 16, Cases: 25000}
 	}
-	return Size{Batches: 4, Cases: 2500}
+	return Size{Batches: 16, Cases: 2500}
 }
 func (c18) Rule() string {
 	return "case = resource (soft or struct-backed) over random kinds that always include non-empty []byte, *[]byte and to-many lists of >= 2 IDs in descending order; Copy(), New() and Type.Copy() are taken, then a seeded history of 1-12 mutations is applied to one side at a time (Set, soft-type AddAttr/AddRel/RemoveField, MarshalResource with relationship data, Filter.IsAllowed with a to-many '=', in-place writes into slices obtained from Get); a full snapshot (id, type name, field tables, every value, sequence-exact) of the untouched side is compared before/after every mutation, and backing arrays of slice values are compared right after copying. Non-trivial = resource with >= 1 non-empty slice-valued field; distinct = hash of spec + history."
